@@ -5,6 +5,7 @@ package msync
 
 import (
 	"sync"
+	"sync/atomic"
 	"unsafe"
 
 	"github.com/attestantio/vouch/verifmc/mc"
@@ -12,10 +13,28 @@ import (
 
 type (
 	Locker = sync.Locker
-	Once   = sync.Once
 	Map    = sync.Map
 	Pool   = sync.Pool
 )
+
+// Once shims sync.Once over the modelled mutex: a second caller waits for the first as a modelled block
+// (with the real sync.Once it would block for real while holding the execution token).
+type Once struct {
+	m    Mutex
+	done atomic.Uint32
+}
+
+func (o *Once) Do(f func()) {
+	if o.done.Load() == 1 {
+		return
+	}
+	o.m.Lock()
+	defer o.m.Unlock()
+	if o.done.Load() == 0 {
+		defer o.done.Store(1)
+		f()
+	}
+}
 
 // Mutex shims sync.Mutex.
 type Mutex struct{ real sync.Mutex }
@@ -159,4 +178,29 @@ func (c *Cond) Broadcast() {
 	}
 	mc.RaceReleaseMerge(&c.sync)
 	mc.Do(&mc.Op{Kind: mc.KCondBroadcast, Key: c.key(), Ref: c, Desc: "Cond.Broadcast"})
+}
+
+// OnceFunc, OnceValue and OnceValues mirror the helpers of package sync.
+func OnceFunc(f func()) func() {
+	var o Once
+	return func() { o.Do(f) }
+}
+
+func OnceValue[T any](f func() T) func() T {
+	var o Once
+	var v T
+	return func() T {
+		o.Do(func() { v = f() })
+		return v
+	}
+}
+
+func OnceValues[T1, T2 any](f func() (T1, T2)) func() (T1, T2) {
+	var o Once
+	var a T1
+	var b T2
+	return func() (T1, T2) {
+		o.Do(func() { a, b = f() })
+		return a, b
+	}
 }
